@@ -317,6 +317,35 @@ def check_bootstrap(case):
     return dict(nontrivial=bool(differ), labels=labels)
 
 
+def _many_group_cases(tier):
+    shapes = [(17, 16), (3, 130)] if tier == "quick" else [(17, 16), (3, 130), (20, 13), (40, 40), (260, 1)]
+    for k, (l1, l2) in enumerate(shapes):
+        for metric, normalize in (("fnr", None), ("fpr", "by_overall")):
+            yield dict(l1=l1, l2=l2, metric=metric, normalize=normalize, seed=k)
+
+
+def check_many_groups(case):
+    """Two group columns with l1 x l2 value combinations (most of them present)."""
+    rs = np.random.RandomState(case["seed"])
+    l1, l2 = case["l1"], case["l2"]
+    v1 = [f"site{i:03d}" for i in range(l1)]
+    v2 = [f"dev_{j}" for j in range(l2)]
+    keys = [[a, b] for a in v1 for b in v2 if rs.rand() < 0.9]
+    assign = list(range(len(keys))) + rs.randint(0, len(keys), size=len(keys) // 2).tolist()
+    rs.shuffle(assign)
+    n = len(assign)
+    fr = dict(ncols=2 if l2 > 1 else 1, keys=keys if l2 > 1 else [[k[0]] for k in keys], assign=assign,
+              lab=(rs.rand(n) < 0.5).tolist(), scores=(rs.randint(0, 11, size=n) / 10).tolist(), pl=0,
+              sc=("pos", "neg")[case["seed"] % 2], ec="pos", index_seed=case["seed"],
+              frame_cols_reversed=bool(case["seed"] % 2), score_dtype="float")
+    thr = [0.3, 0.5]
+    ctx = dict(txt=f"{l1}x{l2} group values, metric={case['metric']} normalize={case['normalize']}", thr=thr)
+    r = _call(fr, "list", thr, case["metric"], case["normalize"])
+    gk, raw, exp, defined = ref_table(fr, thr, case["metric"], case["normalize"])
+    _compare(r.values, gk, exp, defined, ctx, "bias:value")
+    return dict(nontrivial=True, labels=[f"groups:{len(gk)}"])
+
+
 def _by_min_bootstrap(case):
     """D10: with normalize='by_min' the bootstrap replicates are normalised by the minimum over the
     replicate axis instead of over groups."""
@@ -343,6 +372,8 @@ PROP = Prop(
     clauses=[
         Clause("values", check_values, strategy=_value_cases(), quick=300, thorough=9000, quick_shards=4,
                min_nontrivial=100, doc="labels, entries, normalisation"),
+        Clause("many_groups", check_many_groups, kind="enum", cases=_many_group_cases, quick_shards=4, shards=10,
+               min_nontrivial=2, doc="130-1600 group combinations in two group columns"),
         Clause("bootstrap", check_bootstrap, strategy=_boot_cases(), quick=200, thorough=6000,
                quick_shards=4, min_nontrivial=100, doc="intervals are for the reported quantity"),
     ],
